@@ -180,3 +180,123 @@ def shared_module_fragments():
     mid = prog(['মডিউল ভিতর = "util.pakhi";', 'ফাং চার(ক) {', '    ফেরত ভিতর/দ্বিগুণ(ভিতর/দ্বিগুণ(ক));', '} ফেরত;'])
     out.append({'p1': prog(['মডিউল উ = "util.pakhi";', 'দেখাও উ/দ্বিগুণ(১);']), 'p2': prog(['মডিউল ম = "mid.pakhi";', 'দেখাও ম/চার(৩);', 'দেখাও ম/ভিতর/গণনা;']), 'files': [('util.pakhi', util), ('mid.pakhi', mid)], 'kind': 'compose shared-module'})
     return out
+
+
+# ================================================================ round 9
+# ---------------------------------------------------------------- C01: equality of a list and a record that have the same arena index
+def cross_type_equality_programs():
+    cases = []
+    for order in (['নাম ল = [১, ২];', 'নাম র = @{"k" -> ১,};'], ['নাম র = @{"k" -> ১,};', 'নাম ল = [১, ২];'], ['নাম ল = [];', 'নাম র = @{};'],
+                  ['নাম ল০ = [০];', 'নাম ল = [১];', 'নাম র০ = @{};', 'নাম র = @{"k" -> [১],};']):
+        lines = order + ['দেখাও ল == র;', 'দেখাও ল != র;', 'দেখাও র == ল;', 'দেখাও [ল] == [র];', 'নাম মিশ্র = [র, ল, ১, "a", ল];',
+                         'ফাং খোঁজ(ত, ক) {', '    নাম ই = ০;', '    লুপ {', '        যদি ই >= _লিস্ট-লেন(ত) {', '            ফেরত -১;', '        }', '        যদি ত[ই] == ক {', '            ফেরত ই;', '        }', '        ই = ই + ১;', '    } আবার;', '} ফেরত;',
+                         'দেখাও খোঁজ(মিশ্র, ল);', 'দেখাও খোঁজ(মিশ্র, র);', 'দেখাও ল == ল;', 'দেখাও র == র;', 'দেখাও ল == ১;', 'দেখাও র != "k";', 'নাম শূ;', 'দেখাও ল == শূ;', 'দেখাও খোঁজ == ল;']
+        cases.append({'src': prog(lines), 'kind': 'cross-type-equality'})
+    return cases
+
+
+# ---------------------------------------------------------------- C02: a condition that calls the function the chain stands in
+def recursive_condition_programs():
+    cases = []
+    cases.append({'src': prog(['ফাং জোড়(ক) {', '    যদি ক == ০ {', '        ফেরত সত্য;', '    } অথবা যদি ক == ১ {', '        ফেরত মিথ্যা;', '    } অথবা যদি জোড়(ক - ২) {', '        ফেরত সত্য;', '    } অথবা {', '        ফেরত মিথ্যা;', '    }', '} ফেরত;',
+                               'দেখাও জোড়(৬);', 'দেখাও জোড়(৭);', 'দেখাও জোড়(০);']), 'kind': 'recursive-condition'})
+    cases.append({'src': prog(['নাম গাছ = @{"মান" -> ৫, "বাম" -> @{"মান" -> ৩, "বাম" -> ০, "ডান" -> ০,}, "ডান" -> @{"মান" -> ৮, "বাম" -> ০, "ডান" -> ০,},};',
+                               'ফাং আছে(নোড, খোঁজ) {', '    যদি _টাইপ(নোড) == "_সংখ্যা" {', '        ফেরত মিথ্যা;', '    }', '    যদি নোড["মান"] == খোঁজ {', '        ফেরত সত্য;', '    } অথবা যদি আছে(নোড["বাম"], খোঁজ) {', '        ফেরত সত্য;', '    } অথবা {', '        ফেরত আছে(নোড["ডান"], খোঁজ);', '    }', '} ফেরত;',
+                               'দেখাও আছে(গাছ, ৮);', 'দেখাও আছে(গাছ, ৩);', 'দেখাও আছে(গাছ, ৪);']), 'kind': 'recursive-condition'})
+    cases.append({'src': prog(['ফাং গোনা(ক) {', '    যদি ক > ০ {', '        যদি গোনা(ক - ১) >= ০ {', '            ফেরত ক;', '        } অথবা {', '            ফেরত -১;', '        }', '    }', '    ফেরত ০;', '} ফেরত;', 'দেখাও গোনা(৪);',
+                               'ফাং ক_খ(ক) {', '    নাম ফল = ০;', '    লুপ {', '        যদি ক < ১ {', '            থামাও;', '        } অথবা যদি ক_খ(ক - ১) > ১০০ {', '            থামাও;', '        }', '        ফল = ফল + ক;', '        ক = ক - ১;', '    } আবার;', '    ফেরত ফল;', '} ফেরত;', 'দেখাও ক_খ(৪);']), 'kind': 'recursive-condition'})
+    return cases
+
+
+# ---------------------------------------------------------------- C03: a continue directly behind a closing brace inside the body
+def continue_after_block_programs(rng, n):
+    cases = []
+    for _ in range(n):
+        kind = rng.choice(['if', 'else', 'bare', 'nested'])
+        if kind == 'if': blk = ['    যদি ই % ২ == ০ {', '        নাম ভিতরের = "ভিতরের-" + _স্ট্রিং(ই);', '        দেখাও ভিতরের;', '    }', '    আবার;']
+        elif kind == 'else': blk = ['    যদি ই % ২ == ১ {', '        দেখাও "বিজোড়";', '    } অথবা {', '        নাম ভিতরের = "ভিতরের-" + _স্ট্রিং(ই);', '        দেখাও ভিতরের;', '    }', '    আবার;']
+        elif kind == 'bare': blk = ['    {', '        নাম ভিতরের = "ভিতরের-" + _স্ট্রিং(ই);', '        দেখাও ভিতরের;', '    }', '    আবার;']
+        else: blk = ['    যদি সত্য {', '        {', '            নাম ভিতরের = ই;', '        }', '    }', '    আবার;']
+        lines = ['নাম ভিতরের = "বাইরের";', 'নাম শরীরের = "বাইরের শরীর";', 'নাম ই = ০;', 'লুপ {', '    ই = ই + ১;', '    যদি ই > %s {' % bn(rng.randint(2, 5)), '        থামাও;', '    }',
+                 '    দেখাও [ই, ভিতরের, শরীরের];', '    নাম শরীরের = "শরীর-" + _স্ট্রিং(ই);'] + blk + ['    দেখাও "এখানে নয়";', '} আবার;', 'দেখাও [ভিতরের, শরীরের, ই];']
+        if rng.random() < 0.4: lines = ['ফাং চালাও() {'] + ind(lines) + ['    ফেরত ই;', '} ফেরত;', 'দেখাও চালাও();', 'দেখাও চালাও();']
+        cases.append({'src': prog(lines), 'kind': 'continue-after-block'})
+    return cases
+
+
+# ---------------------------------------------------------------- C05: a return whose operand begins with a prefix operator
+def prefix_return_programs():
+    cases = []
+    lines = ['ফাং জোড়(ন) {', '    ফেরত ন % ২ == ০;', '} ফেরত;', 'ফাং বিজোড়(ন) {', '    ফেরত !জোড়(ন);', '} ফেরত;', 'ফাং উল্টো(ক) {', '    ফেরত -ক;', '} ফেরত;', 'ফাং উল্টো২(ক) {', '    ফেরত -(ক + ১);', '} ফেরত;',
+             'ফাং না(ক) {', '    ফেরত !ক;', '} ফেরত;', 'ফাং না২(ক, খ) {', '    ফেরত !(ক & খ);', '} ফেরত;', 'ফাং ঋণ() {', '    ফেরত -৫;', '} ফেরত;', 'ফাং দ্বিঋণ(ক) {', '    ফেরত - -ক;', '} ফেরত;', 'ফাং তালিকার(ত) {', '    ফেরত -ত[০];', '} ফেরত;',
+             'দেখাও বিজোড়(৩);', 'দেখাও বিজোড়(৪);', 'দেখাও উল্টো(৭);', 'দেখাও উল্টো২(৭);', 'দেখাও না(সত্য);', 'দেখাও না২(সত্য, মিথ্যা);', 'দেখাও ঋণ();', 'দেখাও দ্বিঋণ(৩);', 'দেখাও তালিকার([৯]);',
+             'যদি বিজোড়(৫) {', '    দেখাও "বিজোড়";', '} অথবা {', '    দেখাও "জোড়";', '}', 'দেখাও _টাইপ(উল্টো(১));', 'দেখাও _টাইপ(না(মিথ্যা));']
+    cases.append({'src': prog(lines), 'kind': 'prefix-return'})
+    cases.append({'src': prog(['ফাং ফ(ক) {', '    যদি ক > ০ {', '        ফেরত -ক;', '    }', '    ফেরত !সত্য;', '} ফেরত;', 'দেখাও ফ(২);', 'দেখাও ফ(-২);', 'নাম ই = ০;', 'লুপ {', '    ই = ই + ১;', '    যদি ই > ২ {', '        থামাও;', '    }', '    দেখাও ফ(ই) * ২;', '} আবার;']), 'kind': 'prefix-return'})
+    return cases
+
+
+# ---------------------------------------------------------------- C06: fractional positions in indexed assignment (reads truncate, so must writes)
+def fractional_index_programs(rng, n):
+    cases = []
+    for _ in range(n):
+        ln = rng.randint(3, 8)
+        lines = ['নাম ত = [%s];' % ', '.join(bn(i * 10) for i in range(ln)), 'নাম উপ = ত;', 'নাম নথি = @{"ত" -> ত,};']
+        for _k in range(rng.randint(2, 5)):
+            i = rng.randrange(ln)
+            frac = rng.choice(['.৫', '.৭৫', '.৯৯', '.২৫', '.৪৯', '.৫০০০১'])
+            form = rng.choice(['%s%s' % (bn(i), frac), '(%s + %s) / ২' % (bn(i), bn(i + 1)), '%s / ৪' % bn(4 * i + rng.randint(1, 3))])
+            lines += ['ত[%s] = %s;' % (form, bn(rng.randint(100, 999))), 'দেখাও ত;', 'দেখাও উপ[%s];' % form, 'দেখাও নথি["ত"][%s];' % bn(i)]
+        # a heap: parent (i - 1) / 2
+        lines += ['নাম স্তূপ = [৯, ৭, ৮, ১, ২, ৩];', 'নাম ই = ৫;', 'লুপ {', '    যদি ই < ১ {', '        থামাও;', '    }', '    নাম বাবা = (ই - ১) / ২;', '    স্তূপ[বাবা] = স্তূপ[বাবা] + স্তূপ[ই];', '    ই = ই - ১;', '} আবার;', 'দেখাও স্তূপ;']
+        cases.append({'src': prog(lines), 'kind': 'fractional-index'})
+    return cases
+
+
+# ---------------------------------------------------------------- C06 / C07: programs whose variables hold records only when a collection runs
+def record_only_gc_programs():
+    cases = []
+    for n in (300, 700):
+        lines = ['নাম ব্যাংক = @{"নাম" -> "ক", "জমা" -> ০,};', 'নাম উপনাম = ব্যাংক;', 'নাম সঞ্চয় = @{"মালিক" -> ব্যাংক, "হার" -> ৫,};', 'নাম ই = ০;', 'লুপ {', '    যদি ই >= %s {' % bn(n), '        থামাও;', '    }',
+                 '    নাম অস্থায়ী = @{"ক" -> ই, "খ" -> @{"গ" -> ই,},};', '    ব্যাংক["জমা"] = ব্যাংক["জমা"] + অস্থায়ী["খ"]["গ"];', '    ই = ই + ১;', '} আবার;',
+                 'দেখাও ব্যাংক["জমা"];', 'দেখাও উপনাম["নাম"];', 'দেখাও সঞ্চয়["মালিক"]["জমা"];', 'নাম চতুর্থ = @{"x" -> ১,};', 'চতুর্থ["x"] = ২;', 'দেখাও সঞ্চয়["হার"];', 'দেখাও উপনাম["জমা"];', 'দেখাও চতুর্থ["x"];']
+        cases.append({'src': prog(lines), 'kind': 'record-only-gc', 'budget': 60000, 'scheds': ['n', '1', '01']})
+        lines2 = ['নাম অবস্থা = @{"তালিকা" -> [১, ২, ৩], "গণনা" -> ০,};', 'নাম ই = ০;', 'লুপ {', '    যদি ই >= %s {' % bn(n), '        থামাও;', '    }', '    নাম অ = @{"ই" -> [ই, ই],};', '    অবস্থা["গণনা"] = অবস্থা["গণনা"] + ১;', '    ই = ই + ১;', '} আবার;',
+                  'দেখাও অবস্থা["তালিকা"];', 'দেখাও অবস্থা["গণনা"];', 'নাম নতুন = [৭, ৭];', 'দেখাও অবস্থা["তালিকা"];']
+        cases.append({'src': prog(lines2), 'kind': 'record-only-gc', 'budget': 60000, 'scheds': ['n', '1', '01']})
+    return cases
+
+
+# ---------------------------------------------------------------- C14 / C15: the directory constant in an import path of a module in another directory
+def dirname_import_programs():
+    cases = []
+    units_root = prog(['নাম একক = "মিটার";', 'নাম গুণ = ১;'])
+    units_lib = prog(['নাম একক = "সেন্টিমিটার";', 'নাম গুণ = ১০০;'])
+    for form in ['_ডাইরেক্টরি + "units.pakhi"', '_ডাইরেক্টরি + "" + "units.pakhi"', '"lib/" + "units.pakhi"', '"lib" + "/units.pakhi"', '"lib/units.pakhi"', '"li" + "b/un" + "its.pakhi"']:
+        shapes = prog(['মডিউল একক = %s;' % form, 'ফাং দৈর্ঘ্য(ক) {', '    ফেরত ক * একক/গুণ;', '} ফেরত;', 'নাম নাম_একক = একক/একক;'])
+        for main in ('m.pakhi', 'app/main.pakhi'):
+            pre = 'app/' if main.startswith('app/') else ''
+            files = [(pre + 'lib/shapes.pakhi', shapes), (pre + 'lib/units.pakhi', units_lib), (pre + 'units.pakhi', units_root)]
+            c = {'src': prog(['মডিউল আ = "lib/shapes.pakhi";', 'মডিউল মূল_একক = "units.pakhi";', 'দেখাও আ/নাম_একক;', 'দেখাও আ/দৈর্ঘ্য(৮);', 'দেখাও মূল_একক/একক;', 'দেখাও আ/একক/গুণ;']), 'files': files, 'kind': 'dirname-import'}
+            if main != 'm.pakhi': c['main'] = main
+            cases.append(c)
+    # the constant in the root and in a module of the same directory
+    cases.append({'src': prog(['মডিউল উ = _ডাইরেক্টরি + "units.pakhi";', 'দেখাও উ/একক;']), 'files': [('units.pakhi', units_root)], 'kind': 'dirname-import'})
+    return cases
+
+
+# ---------------------------------------------------------------- C19: what P1 may leave behind that only a particular P2 notices
+def residue_fragments():
+    out = []
+    loop_break = ['নাম আই = ০;', 'লুপ {', '    আই = আই + ১;', '    যদি আই > ৩ {', '        থামাও;', '    }', '    নাম ভিতর = আই;', '} আবার;', 'দেখাও আই;']
+    two_loops = loop_break + ['নাম আজ = ০;', 'লুপ {', '    আজ = আজ + ১;', '    যদি আজ > ২ {', '        থামাও;', '    }', '} আবার;']
+    many_builtins = ['নাম আতা = [];', 'নাম আই = ০;', 'লুপ {', '    যদি আই >= ৭০০ {', '        থামাও;', '    }', '    _লিস্ট-পুশ(আতা, আই);', '    আই = আই + ১;', '} আবার;', 'দেখাও _লিস্ট-লেন(আতা);']
+    many_calls = ['ফাং আফ(ক) {', '    ফেরত ক + ১;', '} ফেরত;', 'নাম আই = ০;', 'লুপ {', '    যদি আই >= ৬০০ {', '        থামাও;', '    }', '    আই = আফ(আই);', '} আবার;', 'দেখাও আই;']
+    surplus_brace = ['দেখাও "দ্বি ক";', '}', 'দেখাও "দ্বি খ";']
+    two_braces = ['দেখাও "দ্বি ক";', '}', '}', 'দেখাও "দ্বি খ";']
+    deep = ['ফাং দ্বিগভীর(ন) {', '    যদি ন < ১ {', '        ফেরত ০;', '    }', '    ফেরত ১ + দ্বিগভীর(ন - ১);', '} ফেরত;', 'দেখাও দ্বিগভীর(৪০০);', 'দেখাও _টাইপ(_লিস্ট-লেন([১]));']
+    stray = ['দেখাও "দ্বি ক";', 'আবার;', 'দেখাও "দ্বি খ";']
+    for p1 in (loop_break, two_loops, many_builtins, many_calls):
+        for p2 in (surplus_brace, two_braces, deep, stray):
+            out.append({'p1': prog(p1), 'p2': prog(p2), 'kind': 'compose residue', 'budget': 60000})
+    return out
